@@ -278,7 +278,17 @@ func (w *World) registerIntrinsics() {
 		s := e.constStr(a[0], "strings.Repeat arg")
 		n, ok := str(a[1]).intVal()
 		if !ok {
-			e.unsupported("strings.Repeat with symbolic count")
+			// symbolic count: a string of that length; its contents are left
+			// unconstrained (over-approximation, harnesses use it for sizes only)
+			if len(s) != 1 {
+				e.unsupported("strings.Repeat with symbolic count and multi-byte unit")
+			}
+			e.check("panic", e.panicID("strings: negative Repeat count"), "strings: negative Repeat count", mkGe(str(a[1]), mkInt(0)))
+			v, isNew := e.memoFresh("repeat|"+s+"|"+str(a[1]).String(), "repeat", SStr)
+			if isNew {
+				e.assume(mkEq(mkLen(v), str(a[1])))
+			}
+			return v
 		}
 		return mkStr(strings.Repeat(s, int(n)))
 	}
